@@ -1,5 +1,7 @@
 package tokenexchange
 
+import "strings"
+
 const (
 	AccessTokenType     = "urn:ietf:params:oauth:token-type:access_token"
 	RefreshTokenType    = "urn:ietf:params:oauth:token-type:refresh_token"
@@ -68,8 +70,15 @@ func WithResource(resource []string) func(*TokenExchangeRequest) {
 	}
 }
 
+// WithScope sets the requested scopes. They are sent as ONE space-delimited
+// `scope` parameter (RFC 6749 section 3.3): a repeated parameter would make
+// the receiving side keep only one of the values.
 func WithScope(scope []string) func(*TokenExchangeRequest) {
 	return func(req *TokenExchangeRequest) {
-		req.scope = scope
+		if len(scope) == 0 {
+			req.scope = nil
+			return
+		}
+		req.scope = []string{strings.Join(scope, " ")}
 	}
 }
